@@ -4,6 +4,7 @@ import (
 	"encoding/json"
 	"fmt"
 	"math/rand"
+	"os"
 
 	"verif/harness/core"
 	"verif/harness/tlc"
@@ -11,7 +12,16 @@ import (
 
 func init() {
 	Registry["C03"] = func(c *core.Ctx) { lexerCheck(c, "tokens") }
-	Registry["C04"] = func(c *core.Ctx) { lexerCheck(c, "position") }
+	Registry["C04"] = func(c *core.Ctx) {
+		if os.Getenv("VERIF_C04_ONLYPOS") == "" { // debugging aid: skip the token half
+			lexerCheck(c, "position")
+		} else {
+			lastLexDevs = LexerDevs(c)
+		}
+		if !c.HasInternal() {
+			positionsCheck(c, lastLexDevs)
+		}
+	}
 	Replays["C03"] = lexReplay
 	Replays["C04"] = lexReplay
 }
@@ -21,6 +31,8 @@ var lexSigmaStr = []int{34, 92, 117, 48, 65, 110, 120, 10, 233, 44}
 
 // block-string body alphabet: a SP LF CR " \
 var lexSigmaBlock = []int{97, 32, 10, 13, 34, 92}
+
+var lastLexDevs []string
 
 type lexTraceCase struct {
 	ID   int   `json:"id"`
@@ -39,6 +51,7 @@ func lexerCheck(c *core.Ctx, class string) {
 		"valid UTF-8 inputs only (invalid UTF-8 belongs to C01)",
 	}
 	devs := LexerDevs(c)
+	lastLexDevs = devs
 	c.SetExtra("deviations_enabled", devs)
 
 	// design-level theorems on the model itself (strict grammar, history variables)
